@@ -900,3 +900,78 @@ func c19r11(rc *core.RC) {
 	}
 	rc.Unknown(key, storePos, "the cached key comes from %s, not from Marshal of the query: its injectivity (quoted names, bracketed nesting) is not established", why)
 }
+
+// ---- C19.R12 a member of a query text is a nested query only when it looks like one ----
+
+// A query string is a JSON array whose members are field names or, for nested selections, the text of another
+// query (an array or an object). buildString parses a member as JSON only when it begins with '[' or '{'; any other
+// text is a field name, also when it happens to be a JSON text itself ("1", "true", "null" are legal member names
+// given by tags). Parsing every member first and falling back to a name on failure turns those names into numbers,
+// booleans and nil, which build rejects: the query built from a query's own QueryString no longer equals it.
+func c19r12(rc *core.RC) {
+	p := rc.P
+	fd := p.Func("encoder", "FieldQueryString.buildString")
+	key := "encoder.FieldQueryString.buildString/nested-query-only-behind-a-bracket"
+	if fd == nil || fd.Body == nil {
+		rc.Unknown(key, token.NoPos, "function not found")
+		return
+	}
+	info := p.Info(fd)
+	rc.Touch(p.FuncName(fd))
+	n := 0
+	ast.Inspect(fd.Body, func(m ast.Node) bool {
+		call, ok := m.(*ast.CallExpr)
+		if !ok {
+			return true
+		}
+		id, isID := core.Unparen(call.Fun).(*ast.Ident)
+		if !isID || id.Name != "Unmarshal" {
+			return true
+		}
+		n++
+		guarded := false
+		path := core.PathTo(fd.Body, call)
+		for _, nd := range path {
+			switch x := nd.(type) {
+			case *ast.CaseClause:
+				br, cu := false, false
+				for _, l := range x.List {
+					if v, isC := core.ConstInt(info, l); isC {
+						if v == '[' {
+							br = true
+						}
+						if v == '{' {
+							cu = true
+						}
+					}
+				}
+				if br && cu {
+					guarded = true
+				}
+			case *ast.IfStmt:
+				br, cu := false, false
+				ast.Inspect(x.Cond, func(k ast.Node) bool {
+					if e, isE := k.(ast.Expr); isE {
+						if v, isC := core.ConstInt(info, e); isC {
+							if v == '[' {
+								br = true
+							}
+							if v == '{' {
+								cu = true
+							}
+						}
+					}
+					return true
+				})
+				if br && cu && x.Body.Pos() <= call.Pos() && call.End() <= x.Body.End() {
+					guarded = true
+				}
+			}
+		}
+		rc.Check(guarded, key, call.Pos(), "the member is parsed as JSON only in the branch taken for a first byte '[' or '{': parsed unconditionally, member names that are JSON texts themselves (1, true, null) stop being names")
+		return true
+	})
+	if n < 1 {
+		rc.Unknown(key, fd.Pos(), "no call of Unmarshal found in buildString")
+	}
+}
